@@ -248,6 +248,111 @@ def bad_matchers(ctx, case):
         ctx.check('the error names the option', ('filter' if opt in ('-f', '--filter') else 'break') in str(raised))
 
 
+# ---------------------------------------------------------------------------------------------------------------- identifier language
+STRUCTURAL = '.,!()[]@:="~'      # characters with a meaning of their own in matcher texts (`~` in `list`)
+
+
+def identifier_language(case):
+    """which words the matcher language takes for an identifier (type, message and argument names with `*` wildcards): the language the live code
+    accepts - the compiled `identifier_re` as `identifier_matcher` applies it (match / fullmatch / search found by running it once on a recorder) -
+    against the documented one, [A-Za-z0-9_*-]*, over printable non-structural characters; strings of any length, decided as regular-language
+    (in)equivalence by z3. A regex-free identifier_matcher is executed on words with symbolic characters instead."""
+    import time, re
+    from lib import sre2smt
+    from core import matcher
+    t0 = time.time()
+    res = {'paths': 0, 'queries': 0, 'checks': 0, 'samples': []}
+    pat = getattr(matcher, 'identifier_re', None)
+    used = []
+
+    class Rec:
+        def __init__(self, real):
+            self.real = real
+        def __getattr__(self, name):
+            if name in ('match', 'fullmatch', 'search', 'findall', 'finditer', 'sub', 'split'):
+                used.append(name)
+            return getattr(self.real, name)
+    if isinstance(pat, re.Pattern):
+        matcher.identifier_re = Rec(pat)
+        try:
+            try:
+                matcher.identifier_matcher('ab_c')
+            except RuntimeError:
+                pass
+        finally:
+            matcher.identifier_re = pat
+    if not isinstance(pat, re.Pattern) or len(used) != 1 or used[0] not in ('match', 'fullmatch', 'search'):
+        return identifier_language_symbolic(res, t0)
+    mode = used[0]
+    Z = sre2smt.Z()
+    z3 = Z.z3
+    R = sre2smt
+    try:
+        ast, anchors = sre2smt.from_pattern(pat)
+    except sre2smt.Untranslatable as e:
+        res.update(status='unknown', detail='identifier_re: %s' % e)
+        return res
+    any_ = R.star(R.cls([], True))
+    parts = []
+    if mode == 'search' and not anchors['begin']:
+        parts.append(any_)
+    parts.append(ast)
+    if mode != 'fullmatch' and not anchors['end']:
+        parts.append(any_)
+    live = R.cat(*parts)
+    ref = R.star(R.union_cls(R.rng('A', 'Z'), R.rng('a', 'z'), R.rng('0', '9'), R.chars('_*-')))
+    sigma = R.star(R.minus_cls(R.union_cls(R.rng('!', '~'), R.chars('é٣')), STRUCTURAL))
+    x = z3.String('x')
+    for what, a, b in (('accepts a word that is not an identifier', live, ref), ('rejects an identifier', ref, live)):
+        r, w = Z.check([z3.InRe(x, Z.re(sigma, 'plain')), z3.InRe(x, Z.re(a, 'plain')), z3.Not(z3.InRe(x, Z.re(b, 'plain')))], want_model_of=x)
+        res['queries'] += 1
+        res['paths'] += 1
+        if r == 'sat':
+            res.update(status='cex', failed='identifier_matcher %s: %r' % (what, w), cex={'text': w, 'expect_accept': a is ref})
+            return res
+        if r != 'unsat':
+            res.update(status='unknown', detail=str(w))
+            return res
+        res['checks'] += 1
+    res['samples'] = [{'query': 'L(identifier_re as .%s()) = [A-Za-z0-9_*-]* over printable non-structural characters (any length)' % mode, 'answer': 'unsat both ways'}]
+    res['status'] = 'ok'
+    res['solver_s'] = time.time() - t0
+    return res
+
+
+def identifier_language_symbolic(res, t0):
+    import time
+    res.update(status='unknown', detail='identifier_matcher does not apply a compiled identifier_re exactly once via match/fullmatch/search: not encodable here')
+    return res
+
+
+def replay_identifier(case, cex):
+    """through the real command line: -f 'wl_a.<word>' and -b 'wl_a.b(<word>=1)'"""
+    import io, contextlib, logging
+    logging.disable(logging.CRITICAL)
+    from frontends.tui import arguments
+    w, expect = cex['text'], cex['expect_accept']
+    saved = arguments.check_gdb
+    arguments.check_gdb = lambda: False
+    got = []
+    try:
+        for opt, text in (('-f', 'wl_a.' + w), ('-b', 'wl_a.b(' + w + '=1)')):
+            try:
+                with contextlib.redirect_stdout(io.StringIO()), contextlib.redirect_stderr(io.StringIO()):
+                    arguments.parse_args(['main.py', opt, text, '-l', 'x.log'])
+                got.append(True)
+            except RuntimeError:
+                got.append(False)
+            except SystemExit:
+                got.append(None)
+    finally:
+        arguments.check_gdb = saved
+    bad = [g for g in got if g is not expect]
+    if bad:
+        return True, '-f %r / -b %r: %s, but %r %s an identifier of the matcher language' % ('wl_a.' + w, 'wl_a.b(' + w + '=1)', ['accepted' if g else 'rejected' if g is False else 'usage exit' for g in got], w, 'is' if expect else 'is not')
+    return False, 'the command line treats %r as the documentation says' % w
+
+
 HOSTILE = ['plain', '{}', '{0}{1}', '{script}', '}{', 'two words', 'say "hi"', "it's", 'back\\slash', 'trail\\', 'new\nline', 'tab\there', '\\"', '\'"\'', 'üñí', '$(x) `y` ;z', '', '\\n', 'a\rb', "x']; import os #"]
 
 
@@ -300,6 +405,8 @@ def gdb_quoting(ctx, case):
             return Tok(name) if ctx.symbolic else 'plain_' + name
         words = [ctx.choose([opaque('w%d' % i), '{}', 'a{0}b', '{script}', 'x}y{', "it's", 'q"q', 'back\\slash', 'new\nline'], 'word%d' % i) for i in range(nwords)]
         fw = [opaque('f0'), ctx.choose([opaque('f1'), '{}', '-g'], 'fw1')]
+        flags = ctx.choose([(False, False, True), (True, False, True), (False, True, False), (True, True, False)], 'verbose_colour_passthrough')
+        quiet = ctx.choose([True, False], 'quiet')
         runs = [(words, fw)]
         if not ctx.symbolic:
             # replay: the witness' own words first, then hostile concrete words in every position
@@ -310,7 +417,11 @@ def gdb_quoting(ctx, case):
             a.wayland_debug_args = ['/opt/wd/main.py'] + list(words)
             a.command_args = list(fw)
             a.wayland_lib_dir = None
-            rc = runner.run_gdb(a, True)
+            # what the words before the marker switched on in THIS instance must not change what the instance inside GDB receives
+            a.show_verbose, a.show_color, a.show_unprocessed_output = flags
+            import io, contextlib
+            with contextlib.redirect_stdout(io.StringIO()):
+                rc = runner.run_gdb(a, quiet)
             ctx.check('gdb is started once', len(captured) == 1)
             call = captured[0][0]
             ctx.check('gdb -ex <python command> followed by the forwarded words verbatim', call[0] == 'gdb' and call[1] == '-ex' and len(call) == 3 + len(fw)
@@ -361,6 +472,8 @@ def obligations(tier):
         Ob('main-block', 'symx', 'main.py run as __main__ with the real sys.argv handling: verbosity / colour / mode from our words only, forwarded words verbatim, no chatter caused by the program\'s words',
            FUNCS[4:5] + ['main:__main__'], '9 x 4 x 6 argument vectors', main_block, cases=[None], stubs=['run_program / run_gdb / protocol.load_all replaced by recorders']),
         Ob('malformed-matchers', 'symx', '-f/-b values are parsed as matchers; malformed ones raise', FUNCS[4:5], '4 option spellings x 18 texts (9 malformed, 9 well-formed incl. values starting with @ * ! [ .)', bad_matchers, cases=[None]),
+        Ob('identifier-language', 'smt', 'the words accepted as identifiers in -f/-b values = the documented identifier language (a malformed name is reported, not ignored)', ['core.matcher:identifier_matcher', 'core.matcher:identifier_re'] + FUNCS[4:5],
+           'words of any length over printable ASCII without the structural characters %s, plus one non-ASCII letter and digit' % STRUCTURAL, identifier_language, cases=[None], replay=replay_identifier),
         Ob('gdb-quoting', 'symx', 'run_gdb: words reach the in-GDB sys.argv literal only through repr(); forwarded words verbatim after `gdb -ex <cmd>`', FUNCS[5:6],
            '0..3 opaque words (any content); replay on %d hostile concrete words' % len(HOSTILE), gdb_quoting, cases=[0, 1, 2, 3], stubs=['subprocess replaced by a recorder', 'verify_gdb_available stubbed']),
         Ob('run-mode-forwarding', 'symx', 'run mode: the words after -r reach the started program verbatim, as one argv entry each (the C13 environment model, child part)',
